@@ -9,6 +9,7 @@ import (
 	"crypto/tls"
 	"encoding/binary"
 	"fmt"
+	"net"
 	"os"
 	"strings"
 	"sync"
@@ -23,27 +24,28 @@ import (
 var poisonRun = bytes.Repeat([]byte{0xDB}, 6)
 
 type c04Triple struct {
-	name  vfkit.Name // lower case
-	typ   uint16
-	class uint16
-	up    int
+	name   vfkit.Name // lower case
+	typ    uint16
+	class  uint16
+	up     int
 	notimp bool // sent with RD=0: an unsupported query, answered NOTIMP by the proxy itself
 }
 
 type c04Run struct {
-	listeners  []string
-	upKinds    []string
+	listeners      []string
+	upKinds        []string
 	storeLatencyUs int
-	cache      string // off, large, tiny
-	ttl        uint32
-	clients    int
-	perClient  int
-	poolSize   int
-	maxProcs   int
-	udpThreads int  // udp.threads of the UDP listener (0 = default, one reader)
-	udpRoutes  bool // udp.multi_routes
-	cancelRich bool
-	seeds      []uint32
+	junk           [][]byte // undecodable messages sent to the listeners while the clients work
+	cache          string   // off, large, tiny
+	ttl            uint32
+	clients        int
+	perClient      int
+	poolSize       int
+	maxProcs       int
+	udpThreads     int  // udp.threads of the UDP listener (0 = default, one reader)
+	udpRoutes      bool // udp.multi_routes
+	cancelRich     bool
+	seeds          []uint32
 	// prefetch-rich runs: TTL of a few seconds, a small question pool and clients that keep asking for at
 	// least minDuration, so that many hits land in the last quarter of an entry's lifetime under load
 	minDuration time.Duration
@@ -239,6 +241,40 @@ func runWorkload(t *rapid.T, run c04Run, st *vfkit.Collector, label string) {
 	insecure := &tls.Config{InsecureSkipVerify: true}
 	runStart := time.Now()
 	var wg sync.WaitGroup
+	// Next to the clients somebody sends messages that stop decoding half-way (complete records first, then a record
+	// that is cut off, a count that lies, a pointer into nowhere), as datagrams and as frames: what such a message left
+	// behind in a recycled object must not turn up in anybody's answer.
+	stopJunk := make(chan struct{})
+	if len(run.junk) > 0 {
+		go func() {
+			u, err := net.Dial("udp", fmt.Sprintf("%s:%d", block+"10", ListenerPorts["udp"]))
+			if err != nil {
+				return
+			}
+			defer u.Close()
+			for i := 0; ; i++ {
+				select {
+				case <-stopJunk:
+					return
+				default:
+				}
+				j := run.junk[i%len(run.junk)]
+				u.Write(j)
+				if i%7 == 0 {
+					for _, k := range []string{"tcp", "gnet"} {
+						if c, err := net.DialTimeout("tcp", fmt.Sprintf("%s:%d", block+"10", ListenerPorts[k]), time.Second); err == nil {
+							c.Write(frame(j))
+							c.SetReadDeadline(time.Now().Add(20 * time.Millisecond))
+							c.Read(make([]byte, 16))
+							c.Close()
+						}
+					}
+				}
+				time.Sleep(time.Duration(200+i%5*300) * time.Microsecond)
+			}
+		}()
+	}
+	defer close(stopJunk)
 	for c := 0; c < run.clients; c++ {
 		wg.Add(1)
 		go func(c int) {
@@ -487,7 +523,7 @@ func runWorkload(t *rapid.T, run c04Run, st *vfkit.Collector, label string) {
 		}
 	}
 	nontrivial := maxInflight >= 8 && len(run.listeners) >= 2 && len(run.upKinds) >= 2
-	classes := []string{"cache=" + run.cache}
+	classes := []string{"cache=" + run.cache, fmt.Sprintf("junk-sender=%v", len(run.junk) > 0)}
 	if run.cancelRich {
 		classes = append(classes, "cancel-rich")
 	}
@@ -522,6 +558,39 @@ func genRun(t *rapid.T, cancelRich bool) c04Run {
 	run.upKinds = rapid.SliceOfNDistinct(rapid.SampledFrom([]string{"udp", "tcp", "tcp+pipeline", "tls", "tls+pipeline", "https", "quic", "h3"}), 2, 4, func(s string) string { return s }).Draw(t, "upstreams")
 	run.cache = rapid.SampledFrom([]string{"off", "large", "tiny", "tiny", "store", "tiny+store"}).Draw(t, "cache")
 	run.storeLatencyUs = rapid.SampledFrom([]int{0, 300, 2000}).Draw(t, "storeLatencyMicros")
+	if rapid.Bool().Draw(t, "junkSender") {
+		for i := rapid.IntRange(3, 12).Draw(t, "junkMessages"); i > 0; i-- {
+			// a message with 1-4 complete records of mixed kinds whose last record is cut off, or whose counts promise more
+			leftover := vfkit.Name{[]byte("left"), []byte("over"), []byte("example")}
+			m := &vfkit.Msg{ID: rapid.Uint16().Draw(t, "junkID"), Bits: rapid.SampledFrom([]uint16{vfkit.BitRD, vfkit.BitQR | vfkit.BitRD | vfkit.BitRA}).Draw(t, "junkBits")}
+			if rapid.Bool().Draw(t, "junkQuestion") {
+				m.Q = []vfkit.Question{{Name: leftover, Type: 1, Class: 1}}
+			}
+			for k := rapid.IntRange(1, 4).Draw(t, "junkRecords"); k > 0; k-- {
+				rr := vfkit.RR{Owner: leftover, Type: 1, Class: 1, TTL: 6, RData: []vfkit.RDPart{{Raw: []byte{6, 6, 6, 6}}}}
+				switch rapid.IntRange(0, 3).Draw(t, "junkKind") {
+				case 1:
+					rr = vfkit.RR{Owner: leftover, Type: 16, Class: 1, TTL: 6, RData: []vfkit.RDPart{{Raw: []byte{4, 'j', 'u', 'n', 'k'}}}}
+				case 2:
+					rr = vfkit.RR{Owner: leftover, Type: 15, Class: 1, TTL: 6, RData: []vfkit.RDPart{{Raw: []byte{0, 5}}, {IsName: true, Name: leftover}}}
+				}
+				sec := rapid.SampledFrom([]*[]vfkit.RR{&m.An, &m.Ns, &m.Ar}).Draw(t, "junkSection")
+				*sec = append(*sec, rr)
+			}
+			w := EncodeMsg(m)
+			switch rapid.IntRange(0, 2).Draw(t, "junkDamage") {
+			case 0: // cut inside the last record
+				w = w[:len(w)-rapid.IntRange(1, 9).Draw(t, "junkCut")]
+			case 1: // one more record announced than present
+				sec := 6 + 2*rapid.IntRange(0, 2).Draw(t, "junkCount")
+				w[sec+1]++
+			default: // trailing half record
+				w = append(w, 3, 'x', 'y')
+				w[7]++
+			}
+			run.junk = append(run.junk, w)
+		}
+	}
 	run.ttl = rapid.SampledFrom([]uint32{1, 2, 60}).Draw(t, "ttl")
 	run.clients = rapid.IntRange(8, 48).Draw(t, "clients")
 	run.perClient = rapid.SampledFrom([]int{60, 150, 300}).Draw(t, "perClient")
@@ -546,7 +615,7 @@ func genRun(t *rapid.T, cancelRich bool) c04Run {
 }
 
 func TestVfC04Mixups(t *testing.T) {
-	st := vfkit.Stats("TestVfC04Mixups", "runs of 8-48 concurrent clients spread over all 8 listener kinds x 60-300 queries each from a pool of 20-400 (name,type,class) triples (mixed case, with/without OPT), 2-4 upstream kinds with per-reply delays (reordering), cache off/large/tiny/second-level store (the harness's RESP3 server) alone or behind a tiny memory cache, TTL 1-60 s (one run in three prefetch-rich: TTL 5-6 s, small pool, >= 7 s of traffic), GOMAXPROCS {default,2,4}, against the -race -tags verif binary; oracle per response: question and keyed answer belong to this response's own query, no poison octets anywhere, no race report, no canary; non-trivial = >= 8 queries simultaneously in flight at an upstream with >= 2 listener kinds and >= 2 upstream kinds")
+	st := vfkit.Stats("TestVfC04Mixups", "runs of 8-48 concurrent clients spread over all 8 listener kinds x 60-300 queries each from a pool of 20-400 (name,type,class) triples (mixed case, with/without OPT), 2-4 upstream kinds with per-reply delays (reordering), cache off/large/tiny/second-level store (the harness's RESP3 server) alone or behind a tiny memory cache, TTL 1-60 s (one run in three prefetch-rich: TTL 5-6 s, small pool, >= 7 s of traffic), GOMAXPROCS {default,2,4}, in half of the runs a sender of messages that stop decoding half-way (datagrams and frames), against the -race -tags verif binary; oracle per response: question and keyed answer belong to this response's own query, no poison octets anywhere, no race report, no canary; non-trivial = >= 8 queries simultaneously in flight at an upstream with >= 2 listener kinds and >= 2 upstream kinds")
 	defer vfkit.Flush()
 	rapid.Check(t, func(t *rapid.T) {
 		runWorkload(t, genRun(t, false), st, "c04")
